@@ -4,10 +4,11 @@ own so that concurrent builders do not edit the shared registry - merge at will)
     /venv/bin/python -m selftest.mutations_c19 [id ...]     # runs ./check C19 on each mutant
     /venv/bin/python -m selftest.mutations_c19 f9-fixed      # the repaired tree must be clean
 
-Because the unchanged tree already violates C19 through finding F9 (signature family
-``accepts-bare-dot:hash-bg`` / ``accepts-bare-dot:style``), every mutant is applied on top of
-the F9 repair (F9_FIX) and counts as caught only if the check exits 1.  ``f9-fixed`` alone must
-exit 0: the check demands nothing else of the current code.
+While finding F9 (signature family ``accepts-bare-dot:hash-bg`` / ``accepts-bare-dot:style``)
+was still in /repo, every mutant was applied on top of the F9 repair (F9_FIX); F9 has since been
+fixed in /repo (212ec59), so F9_FIX is applied only if its pattern is still found.  A mutant
+counts as caught only if the check exits 1; ``f9-fixed`` (= the current tree once F9 is
+repaired) must exit 0: the check demands nothing else of the current code.
 """
 
 from __future__ import annotations
@@ -103,6 +104,18 @@ MUTATIONS = {
         old="int(width) if width else 0,",
         new="int(width, 8) if width and width[0] == '0' and len(width) > 1 and not set(width) & set('89') else int(width) if width else 0,",
     ),
+    # ---- settings dimension (seeded regression C19-y2 and a sibling) ----------------------
+    "c19-iterm2-compress-depends-on-class-jpeg": dict(   # = seeded/C19-y2
+        file="image/iterm2.py", props=["C19"],
+        old='        if compress:\n            args["compress"] = int(compress[-1])\n',
+        new='        if compress and cls.jpeg_quality < 0:\n            args["compress"] = int(compress[-1])\n',
+    ),
+    "c19-kitty-method-dropped-when-class-method": dict(   # 'W' denotes nothing once the class is WHOLE
+        file="image/kitty.py", props=["C19"],
+        old='        if method:\n            args["method"] = LINES if method == "L" else WHOLE\n',
+        new='        if method and not (cls._render_method != cls._default_render_method and (LINES if method == "L" else WHOLE) == cls._render_method):\n'
+            '            args["method"] = LINES if method == "L" else WHOLE\n',
+    ),
     "c19-threshold-percent": dict(
         file="image/common.py", props=["C19"],
         old="                    else float(threshold_or_bg)\n",
@@ -119,6 +132,8 @@ def apply(mid: str, edits) -> Path:
     for e in edits:
         f = root / "src" / "term_image" / e["file"]
         text = f.read_text()
+        if e is F9_FIX and text.count(e["old"]) == 0:
+            continue  # already repaired in /repo
         if text.count(e["old"]) != 1:
             raise SystemExit(f"{mid}: pattern occurs {text.count(e['old'])} times in {e['file']}")
         f.write_text(text.replace(e["old"], e["new"]))
